@@ -1,6 +1,6 @@
 SPECIFICATION Spec
 CONSTANTS
-  ObjRecs <- MC_ObjRecs
+  ObjRecs <- MC_ObjRecsH
   ConRecs <- MC_ConRecs
   MaxCons = 2
   Methods <- MC_MethodsH
